@@ -120,7 +120,10 @@ partial def parseTableD : Nat → List String → Option (List (Nat × String ×
 def dumpH (E : HEnv String Nat M (List Float)) (h : H) (ns : Nat) : String :=
   let objs := (List.range h.nobj).map (fun i =>
     let v := h.view E i
-    joinWith " " [tagStr v.tag, (v.orbFrame.getD "-"), v.orbCur, toString v.date, fsToStr v.orb, fsToStr v.mat.flatten])
+    let cell := fun (k : Nat) => (h.data (h.obj k).data).orb
+    -- which objects hold the SAME private state copy (a dict copied by `__array_finalize__` points to the same one): the first of them
+    let first := ((List.range h.nobj).find? (fun k => cell k == cell i)).getD i
+    joinWith " " [tagStr v.tag, (v.orbFrame.getD "-"), v.orbCur, toString v.date, fsToStr v.orb, fsToStr v.mat.flatten, toString first])
   let svs := (List.range ns).map (fun s => (h.sv s).frame)
   joinWith " " ([toString h.nobj] ++ objs ++ svs)
 
@@ -154,6 +157,10 @@ def stepH (E : HEnv String Nat M (List Float)) (ns : Nat) (h : H) : List String 
     else match getFrame name with
       | none => pure (h, "unknown-frame", rest)
       | some g => pure (h.svHop E s g, if h.svHopOk E s g then "ok" else "attribute", rest)
+  | "svw" :: s :: d :: rest => do
+    let s ← s.toNat?; let d ← d.toNat?
+    let (x, rest) ← takeFloats 6 rest
+    if s ≥ ns then none else pure (h.svSet s d x, "ok", rest)
   | "scale" :: i :: k :: rest => do
     let i ← i.toNat?; let k ← fOfStr? k
     if i ≥ h.nobj then none else pure (h.map E i (scaleF k), "ok", rest)
@@ -191,7 +198,7 @@ partial def runH (E : HEnv String Nat M (List Float)) (ns : Nat) (h : H) (toks :
 
 /-- `heap <ns> {<date idx> <frame> <x 6>}^ns <k> {<date idx> <a> <b> <36 floats>}^k <ops…>` →
 after every op, separated by `|`: error token, number of objects, per object (tag, `_orb_frame` or `-`,
-frame of the private copy, its date index, its 6 coordinates, the 36 values), the frame of every state -/
+frame of the private copy, its date index, its 6 coordinates, the 36 values, the first object holding the same private copy), the frame of every state -/
 def handleHeap : List String → String
   | ns :: rest =>
     match ns.toNat? with
